@@ -1,4 +1,5 @@
 import numpy as np
+import json
 
 from ..settings import Sign, EnvType, Format
 from ..datatypes import StringType, BooleanType, NumberType, FloatType, IntegerType
@@ -46,30 +47,48 @@ class ExportConfig:
         """
         self.data = self.env.data(self.dtype, query=query, tags=tags)
 
+    def _parse_array(self, values):
+        """ Array values in the tight notation of DIP and their dimensions
+        """
+        shape = []
+        dims = values
+        while isinstance(dims, (np.ndarray,tuple,list)):
+            shape.append(str(len(dims)))
+            dims = dims[0] if len(dims) else None
+        return json.dumps(values, separators=(',',':')), "["+",".join(shape)+"]"
+
     def parse(self):
         """ Default DIP parser
         """
         lines = []
         for name, param in self.data.items():
             value = param.value
+            isarray = isinstance(value, (np.ndarray,tuple,list))
+            if isarray:
+                value, dims = self._parse_array(value)
             if isinstance(param, StringType):
                 dtype = StringNode.keyword
-                value = f"\"{value}\""
+                value = f"'{value}'" if isarray else f"\"{value}\""
             elif isinstance(param, BooleanType):
                 dtype = BooleanNode.keyword
-                value = "true" if value else "false"
+                if not isarray:
+                    value = "true" if value else "false"
             elif isinstance(param, IntegerType):
                 dtype = IntegerNode.keyword
                 if param.unsigned:
                     dtype = "u"+dtype
                 if param.precision!=IntegerType.precision:
                     dtype += str(param.precision)
-                value = int(param.value)
+                if not isarray:
+                    value = int(param.value)
             elif isinstance(param, FloatType):
                 dtype = FloatNode.keyword
                 if param.precision!=FloatType.precision:
                     dtype += str(param.precision)
-                value = float(param.value)
+                if not isarray:
+                    value = float(param.value)
+            if isarray:
+                dtype += dims
             if param.unit:
                 lines.append(f"{name} {dtype} = {value} {param.unit}")
             else:
